@@ -125,6 +125,8 @@ def trade_call(m, ev):
         return f(ev["i"], amt)
     if ev["mode"] == "lim":
         return f(ev["i"], amt, price_in_token=dec(ev["px"]))
+    if ev["mode"] == "limusd":
+        return f(ev["i"], amt, price_in_usd=dec(ev["px"]))
     return f(ev["i"], amt, max_mark_price_multiple=dec(ev["px"]))
 
 
